@@ -163,9 +163,9 @@ package genetics
 //@   modifies nothing
 //@   ensures [fresh] result != nil && fresh(result) && result.ControlNode == controlNode && result.InnovationNum == innovNum && result.MutationNum == mutNum && result.IsEnabled == enabled
 //@   loop 1:
-//@     invariant gene != nil && fresh(gene) && fresh(gene.ioNodes) && (forall b :: wasAllocated(b) ==> Mem[*network.NNode][b] == old(Mem[*network.NNode][b]))
+//@     invariant gene != nil && fresh(gene) && fresh(gene.ioNodes) && (forall b :: wasAllocated(b) ==> Mem[*network.NNode][b] == old(Mem[*network.NNode][b])) && (forall x *MIMOControlGene :: wasAllocated(x) ==> sameSlice(x.ioNodes, old(x.ioNodes)))
 //@   loop 2:
-//@     invariant gene != nil && fresh(gene) && fresh(gene.ioNodes) && (forall b :: wasAllocated(b) ==> Mem[*network.NNode][b] == old(Mem[*network.NNode][b]))
+//@     invariant gene != nil && fresh(gene) && fresh(gene.ioNodes) && (forall b :: wasAllocated(b) ==> Mem[*network.NNode][b] == old(Mem[*network.NNode][b])) && (forall x *MIMOControlGene :: wasAllocated(x) ==> sameSlice(x.ioNodes, old(x.ioNodes)))
 //@ func (*Genome).duplicateControlGenes
 //@   props C06
 //@   mode nosafety
